@@ -31,7 +31,7 @@ def plan(tier, seed):
 
 def post(results, tier, seed):
     for r in results:
-        fs = [f for f in r.get("findings", []) if f.get("kind") in SAFETY or str(f.get("cls", "")).startswith("C10:")]
+        fs = [f for f in r.get("findings", []) if f.get("kind") in SAFETY or str(f.get("cls", "")).startswith(("C10:", "lemma:buffer"))]
         if r["status"] == "violation" and not fs:
             r["status"] = "holds"
         r["findings"] = fs
